@@ -26,6 +26,8 @@ TNext ==
   \/ IsEv("Recv") /\ RecvCall(Ev.len, Ev.runs)
   \/ IsEv("RecvRet") /\ RecvRet(Ev.c)
   \/ IsEv("Complete") /\ SendComplete
+  \/ IsEv("CompleteRet") /\ UNCHANGED cvars          \* callback brackets: only tell which calls were made from inside
+  \/ IsEv("CloseRet") /\ UNCHANGED cvars
   \/ IsEv("Close") /\ CloseReport
   \/ IsEv("Enable") /\ Enable(Ev.ret)
   \/ IsEv("Disable") /\ Disable(Ev.ret)
